@@ -205,7 +205,7 @@ def run(chk, repo):
                 problems.append("a sample already inside the limits would be changed (clip must be idempotent)")
             chk.decide(not problems, "C20.clip", WA("clip"), "[%s] leaf %s when %s" % (label, vt, ctxt),
                        why="; ".join(problems), node=st)
-    chk.floor("C20.clip", n_leaves, 7, "conditional leaves of clip")
+    chk.floor("C20.clip", n_leaves, 3, "value leaves of clip (at least one per limited arm)")
 
     # ------------------------------------------------------ one output per input
     chk.rule("R2.2", "one output per input on every path (pull/yield typestate)")
